@@ -164,8 +164,8 @@ def gen_case(rng, cid, tier, forced=None):
             lo = total - sum(l for l, _ in sim.lines[-3:])
             data_cuts = list(range(lo, total + 1))
             idx_cuts = list(range(max(0, sim.nidx * 16 - 48), sim.nidx * 16 + 1))
-        if tier != "thorough" and len(data_cuts) > 220:
-            data_cuts = sorted(rng.sample(data_cuts, 220))
+        if tier != "thorough" and len(data_cuts) > 700:
+            data_cuts = sorted(rng.sample(data_cuts, 700))
         lsecs = [s for _, s in sim.lines[-3:]] or [sim.latest]
         fsec = sim.lines[0][1] if sim.lines else sim.latest
 
@@ -269,8 +269,10 @@ META = {
                  "correspondence model/impl on real temp directories incl. exhaustive truncation",
     "level_text": ("Theorems in lean/Sentinel/Props/C17.lean about the definitions the driver executes (lean/Sentinel/Model/MetricLog.lean): item round trip "
                    "through ToFatString/MetricItemFromFatString, the reference answers are complete/ordered/duplicate-free, the file count never exceeds the "
-                   "maximum for any history, for every cut offset the lines read are the complete lines plus at most one fragment (which parses iff it still has "
-                   "8 fields), searching is total for any directory content, and the search of a well-formed directory by a fresh searcher equals the reference. "
+                   "maximum for any history, for every cut offset the items read are exactly the items wholly before the cut plus what the one fragment parses to "
+                   "(only possible with 8 fields), searching is total and returns only items parsed from retained files for any bytes / cache / cut, and - end to "
+                   "end over every accepted write history with any number of size/day rolls and removals (writer invariants proved by induction) - a fresh "
+                   "searcher's FindByTimeAndResource equals the reference whenever every retained item not before `begin` belongs to an indexed second. "
                    "The model is tied to core/log/metric by running the same op files through the real writer/searcher on a temp directory and through the "
                    "compiled model (every observation compared, incl. file names and sizes), with every cut offset of the last data/idx file exercised."),
     "level_note": ("Trusted: Lean kernel; axioms propext/Classical.choice/Quot.sound; Go harness (virtual clock, UTC), the OS file system for prefix truncation only. "
